@@ -765,7 +765,7 @@ impl ParserListener for Screen {
             Some(margins) => margins.top,
             None => 0,
         };
-        let count = count.unwrap_or(1);
+        let count = count.filter(|c| *c > 0).unwrap_or(1);
         self.cursor.y = self.cursor.y.saturating_sub(count).max(top);
     }
 
@@ -774,7 +774,7 @@ impl ParserListener for Screen {
             Some(margins) => margins.bottom,
             None => self.lines - 1,
         };
-        let count = count.unwrap_or(1);
+        let count = count.filter(|c| *c > 0).unwrap_or(1);
         self.cursor.y = (self.cursor.y + count).min(bottom);
     }
 
@@ -789,7 +789,7 @@ impl ParserListener for Screen {
     /// # Parameters
     /// - `count`: Number of columns to skip.
     fn cursor_forward(&mut self, count: Option<u32>) {
-        self.cursor.x += count.unwrap_or(1);
+        self.cursor.x += count.filter(|c| *c > 0).unwrap_or(1);
         self.ensure_hbounds();
     }
 
@@ -805,8 +805,9 @@ impl ParserListener for Screen {
         if self.cursor.x == self.columns {
             self.cursor.x -= 1
         }
-        if self.cursor.x >= count.unwrap_or(1) {
-            self.cursor.x -= count.unwrap_or(1);
+        let count = count.filter(|c| *c > 0).unwrap_or(1);
+        if self.cursor.x >= count {
+            self.cursor.x -= count;
         } else {
             self.cursor.x = 0;
         }
@@ -819,7 +820,7 @@ impl ParserListener for Screen {
     }
 
     fn cursor_to_column(&mut self, character: Option<u32>) {
-        self.cursor.x = character.unwrap_or(1) - 1;
+        self.cursor.x = character.filter(|c| *c > 0).unwrap_or(1) - 1;
         self.ensure_hbounds();
     }
 
@@ -1024,7 +1025,7 @@ impl ParserListener for Screen {
     /// # Parameters
     /// - `line`: Line number to move the cursor to.
     fn cursor_to_line(&mut self, line: Option<u32>) {
-        self.cursor.y = line.unwrap_or(1) - 1;
+        self.cursor.y = line.filter(|l| *l > 0).unwrap_or(1) - 1;
 
         // If origin mode (DECOM) is set, line numbers are relative to
         // the top scrolling margin.
